@@ -242,7 +242,7 @@ impl<'a, R: Read> Lexer<Scanner<'a, R>> {
 
     fn parse_path(&mut self, id: Id) -> Result<LexerToken, Error> {
         let mut path = Vec::from([id]);
-        while !self.scanner.is_eof {
+        loop {
             let id = parse_id(&mut self.scanner)?;
             path.push(id);
             self.scanner.consume_white_spaces()?;
